@@ -630,33 +630,6 @@ func main() {
 			shards = append(shards, pool.Shard{Kind: "prog", Arg: progShard{Prog: i, Mode: m}})
 		}
 	}
-	// (a)
-	files := corpusFiles()
-	corpusCases := 0
-	for _, f := range files {
-		if sub := os.Getenv("VERIF_C01_FILE"); sub != "" && !strings.Contains(f, sub) {
-			continue
-		}
-		b, err := os.ReadFile(filepath.Join(repoRoot(), f))
-		if err != nil {
-			continue
-		}
-		for _, mut := range []string{"prefix", "del", "dup"} {
-			n := mutantCount(string(b), mut)
-			corpusCases += n
-			step := 400
-			if len(b) > 8000 {
-				step = 100
-			}
-			for from := 0; from < n; from += step {
-				to := from + step
-				if to > n {
-					to = n
-				}
-				shards = append(shards, pool.Shard{Kind: "corpus", Arg: corpusShard{File: f, Mut: mut, From: from, To: to}})
-			}
-		}
-	}
 	// (b)
 	maxLen, coreLen := 3, 0
 	if !quick {
@@ -718,6 +691,33 @@ func main() {
 			}
 		}
 	}
+	// (a)
+	files := corpusFiles()
+	corpusCases := 0
+	for _, f := range files {
+		if sub := os.Getenv("VERIF_C01_FILE"); sub != "" && !strings.Contains(f, sub) {
+			continue
+		}
+		b, err := os.ReadFile(filepath.Join(repoRoot(), f))
+		if err != nil {
+			continue
+		}
+		for _, mut := range []string{"prefix", "del", "dup"} {
+			n := mutantCount(string(b), mut)
+			corpusCases += n
+			step := 400
+			if len(b) > 8000 {
+				step = 100
+			}
+			for from := 0; from < n; from += step {
+				to := from + step
+				if to > n {
+					to = n
+				}
+				shards = append(shards, pool.Shard{Kind: "corpus", Arg: corpusShard{File: f, Mut: mut, From: from, To: to}})
+			}
+		}
+	}
 	// (d) ladders run in a second, narrower pool (deep stacks need memory)
 	depths := []int{10, 100, 1000, 10000}
 	if !quick {
@@ -757,9 +757,9 @@ func main() {
 	var watchdog, undecided []string
 	var failing int64
 	abortRaised := false
-	abortAfter := int64(300_000) // unchanged tree: ~28k failing cases in quick, ~370k in thorough
+	abortAfter := int64(100_000) // unchanged tree: ~28k failing cases in quick, ~370k in thorough
 	if !quick {
-		abortAfter = 3_000_000
+		abortAfter = 1_500_000
 	}
 	cpuOk, cpuFail := map[string]float64{}, map[string]float64{}
 	onRec := func(si int, rb json.RawMessage) {
